@@ -80,6 +80,18 @@ theorem source_pack_and_tag (s1 s2 x sum : UInt32) :
   ⟨PureTie.packSum_tied s1 s2 x, PureTie.tag_tied sum⟩
 
 
+/-- **one pass of the source's rolling update is the algorithm level's step `rollGo`** — the step
+about which the refinement chain (Go-level loop ⊑ Alg-B ⊑ Alg-A ⊑ greedy) is proved: with the window
+length `k` and the flag `more` as `hashSearch` computes them, the statements translated from /repo
+return `rollGo`'s pair, whether a byte follows the window or the window only shrinks. -/
+theorem source_rolling_update_is_model_step (c : Ctx) (s : UInt32 × UInt32) (x : UInt8) (xs : Bytes) :
+    (c.bl ≤ xs.length →
+      Gen.Pure.rollUpdate s.1 s.2 (c.bl : Int) (x :: xs) true = .ok ((rollGo c s x xs).1, (rollGo c s x xs).2, (c.bl : Int))) ∧
+    (¬ c.bl ≤ xs.length →
+      Gen.Pure.rollUpdate s.1 s.2 ((xs.length + 1 : Nat) : Int) (x :: xs) false
+        = .ok ((rollGo c s x xs).1, (rollGo c s x xs).2, (xs.length : Int))) :=
+  PureTie.rollUpdate_is_rollGo c s x xs
+
 /-! ### The tag table: a pre-filter that misses nothing -/
 
 /-- **every block with the window's tag is a candidate**: for a table of `(tag, block)` pairs sorted
